@@ -97,12 +97,13 @@ pub struct Run {
     tick_left: u32,
     sleeps_left: u32,
     migratable: Option<&'static str>,
+    window_open: bool,
     tick_world: bool,
     probe_world: bool,
 }
 impl Run {
     pub fn new() -> Self {
-        Run { tr: Trace::new(), world: None, ops: 0, ticker: None, tick_left: 0, sleeps_left: 0, migratable: None, tick_world: false, probe_world: false }
+        Run { tr: Trace::new(), world: None, ops: 0, ticker: None, tick_left: 0, sleeps_left: 0, migratable: None, window_open: false, tick_world: false, probe_world: false }
     }
     pub fn scenario(&mut self, cluster: &str, name: &str) {
         self.tr.lines.push(format!("scenario {cluster} {name}"));
@@ -114,6 +115,7 @@ impl Run {
         self.tick_left = 3000;
         self.sleeps_left = 2;
         self.migratable = None;
+        self.window_open = false;
         self.probe_world = matches!(cluster, "gw" | "op" | "tk" | "ex" | "its");
     }
     /// now and then: call (without authorisation) whatever the contract exports beyond what the model knows
@@ -183,7 +185,17 @@ impl Run {
         if !go {
             return;
         }
-        let line = format!("{prefix}.upgrade_migrate @");
+        // the gateway's two steps are also played APART: the window then stays open across whatever comes next, until the
+        // next administrative moment closes it
+        let line = if prefix == "gw" && self.window_open {
+            self.window_open = false;
+            "gw.migrate @".to_string()
+        } else if prefix == "gw" && self.ticker.as_mut().map(|r| r.below(2) == 0).unwrap_or(false) {
+            self.window_open = true;
+            "gw.upgrade @".to_string()
+        } else {
+            format!("{prefix}.upgrade_migrate @")
+        };
         let toks: Vec<&str> = line.split(' ').collect();
         let (obs, diag) = self.world.as_mut().expect("no scenario").exec(&toks);
         self.ops += 1;
@@ -201,6 +213,9 @@ impl Run {
             if op.starts_with(&format!("{p}.new ")) {
                 // the contract most recently constructed in this scenario (none after a failed construction)
                 let ok = obs.starts_with("ok");
+                if p == "gw" {
+                    self.window_open = false;
+                }
                 if ok && (self.migratable.is_none() || p == "its" || self.migratable == Some(p)) {
                     self.migratable = Some(p);
                 } else if !ok && self.migratable == Some(p) {
